@@ -251,6 +251,9 @@ func NewWorld(s *Scenario, opts lab.NodeOpts, props ...string) (*World, error) {
 
 func (w *World) Close() { w.C.Close() }
 
+// AddHooks attaches a dynamic observer (e.g. a mirror chain) to this case.
+func (w *World) AddHooks(h Hooks) { w.hooks = append(w.hooks, h) }
+
 // SyncParams reads the parameters in force from the chain (they are inputs of
 // the models; that they are valid and equal the last applied update is C16).
 func (w *World) SyncParams() {
